@@ -137,6 +137,19 @@ def normDomain (N : Norm) (d : Bytes) : Except Err Bytes :=
       else if d'.length < 1 ∨ d'.length > maxPart then .error .domainLen
       else .ok d'
 
+/-- enforce a profile, then require the result to be a fixed point of the profile (what the
+code does for the localpart since `fix: jid: reject a localpart whose normalized form is not
+stable`: `UsernameCaseMapped` of golang.org/x/text is not idempotent) -/
+def stab (f : Bytes → Option Bytes) (x : Bytes) : Option Bytes :=
+  match f x with
+  | some y => if f y = some y then some y else none
+  | none => none
+
+/-- the external functions as the code applies them: `N` is the library, `N.code` adds the
+fixed-point test on the enforced localpart.  `New`, `Parse`, `WithLocal`, the XML decoders of
+the Go package are `new N.code`, `parse N.code`, … -/
+def Norm.code (N : Norm) : Norm := { N with nL := stab N.nL }
+
 def hasForbidden (l : Bytes) : Bool := l.any (· ∈ forbidden)
 
 /-- a part that is normalised only when it is not empty -/
